@@ -43,10 +43,10 @@ TEXT = {
  "C13": "Same models and recordings as C12; Trace_Tracker instantiates Tracker!PosUpd with CPR!GlobalDecode and Geo (fixed-point haversine in verification direction, 5 m tolerance, 25 m guard band at the range and 100 km thresholds); threshold flights along meridians/equator hit both sides of each limit within tens of metres.",
  "C14": "Same models and recordings as C12; latest-wins attributes, per-component 'changed' verdicts, the track step (TrackStepOK) and the derived views (details, all_position, Display, distance iff position) are judged after every step.",
  "C15": "MC_Tracker PruneRemovesExactly / ReaddedIsFresh; recorded histories with integer clock ticks (guarded hook verif_backdate moves every timestamp) and prune(T), T in 0..120, judged by Trace_Tracker against the spec's own clock; histories that took >= 0.9 s of wall time are repeated, never judged.",
- "C16": "MC_Feed (TLC) checks NoCrash / ExactlyOnceInOrder / AllProcessed over every segmentation (<= 4 segments) and gap assignment of small feeds; TLAPS proves NoCrash for all streams and schedules (thorough). Schedules of the model, malformed-line and split-invalid feeds, --limit-parsing, disconnect and reconnect runs are executed against the real 1090 and radar over loopback TCP and judged by Trace_Feed. MC_RadarSession (TLC, with fairness) checks that a closed feed leads to exit, or with --retry-tcp to a reconnect that keeps the tracked aircraft; each radar run's hook events must be a behaviour of that machine (Trace_Session: connected before any line, disconnect_keys, retry_lost_aircraft).",
+ "C16": "MC_Feed (TLC) checks NoCrash / ExactlyOnceInOrder / AllProcessed and, under weak fairness, EventuallyAllProcessed over every segmentation (<= 4 segments) and gap assignment of small feeds; TLAPS proves NoCrash for all streams and schedules (thorough). Schedules of the model, malformed-line and split-invalid feeds, --limit-parsing, disconnect and reconnect runs are executed against the real 1090 and radar over loopback TCP and judged by Trace_Feed. MC_RadarSession (TLC, with fairness) checks that a closed feed leads to exit, or with --retry-tcp to a reconnect that keeps the tracked aircraft; each radar run's hook events must be a behaviour of that machine (Trace_Session: connected before any line, disconnect_keys, retry_lost_aircraft).",
  "C17": "MC_RadarUI (TLC) checks NoPanic / SelectionShown over keys, mouse events, arrivals/expiry and bursts between draws; behaviours of the model and seeded random operator sessions (terminal sizes down to 1x1, SGR mouse, resizes, raw junk), quitting while waiting for a (re)connection, and a grid of malformed option values are run against the real radar in a pty; exit status, termios, DEC modes and panics judged by Trace_UI; every logged step is explained by the handler tables (drift = 0). MC_RadarSession (TLC) checks the lifecycle - terminal as found whenever the process has ended, the loop only left for a reason, a quit request leads to exit (liveness under weak fairness) - and Trace_Session accepts a session only if its hook events, in order, are a behaviour of that machine (sessions with server closes, reconnects, quitting in every state).",
  "C18": "Screens reconstructed by a terminal model at the hook's frame markers are paired with the hook's per-aircraft data and judged by Trace_Screen: title counts, every Airplanes row (address, callsign, lat, lon, altitude, distance, messages), Stats totals tracked through the trace, Map label column by the linear longitude scale (+-1) and row by linearised Mercator (+-2), distances measured from the receiver whatever the view, data unchanged by view actions; MC_RadarUI ViewOnly / StatsOK.",
- "C19": "MC_Reader (TLC) explores every schedule with <= 1/2 short reads and <= 1/2 Interrupted errors of the read/seek programs of 40 frame shapes (taken from reference runs of the real decoder) and checks the checksum-window invariants; every model schedule, random schedules, frames behind a prefix and back-to-back frames are replayed through a scripted Read+Seek and judged by Trace_Reader (result equals the slice decode; decoding is pure).",
+ "C19": "MC_Reader (TLC) explores every schedule with <= 1/2 short reads and <= 1/2 Interrupted errors of the read/seek programs of 40 frame shapes (taken from reference runs of the real decoder) and checks the checksum-window invariants and termination (liveness under weak fairness); every model schedule, random schedules, frames behind a prefix and back-to-back frames are replayed through a scripted Read+Seek and judged by Trace_Reader (result equals the slice decode; decoding is pure).",
  "C20": "The recorder is built twice (std+serde, alloc-only); both run the same decode / pairing / tracker inputs and Trace_Config requires the projections (and texts) to be identical; every decoded frame and tracker states inside histories are sent through serde_json and back and re-projected.",
 }
 
